@@ -88,11 +88,7 @@ def prove(prop, log):
             log.append(b.log[-3000:])
             return res
     # forbidden constructs in the sources of the project
-    srcs = []
-    for root, _, files in os.walk(os.path.join(C.LEAN, "CLModel")):
-        for f in files:
-            if f.endswith(".lean"):
-                srcs.append(os.path.join(root, f))
+    srcs = C.import_closure(list(prop.LEAN_TARGETS) + ["Driver"])
     hits = C.grep_forbidden(srcs)
     if hits:
         res["ok"] = False
